@@ -19,6 +19,13 @@ PINNED = {
     "idxWidthLazy": "((id (digits (ll + 1))) + 2)",
     "idxWidthEager": "((id (digits n)) + 2)",
     "colWidth": "(min (max3 cw ctw dw) maxcol)",
+    "measureRows": "tlen",
+    "lazyHeadOnlyTake": "limit",
+    "lazyHeadTake": "limit",
+    "dequeMax": "limit",
+    "eagerHeadSize": "limit",
+    "eagerTailSize": "limit",
+    "eagerSliceLen": "limit",
     "eagerSplitTest": "(n > (2 * limit))",
     "eagerEllipsisTest": "(i = limit)",
     "eagerTailTest": "(i ≥ limit)",
@@ -52,6 +59,13 @@ SIGS = [
     ("idxWidthLazy", "(digits : Int → Int) (ll : Int) : Int", "`len(str(lazy_length + 1)) + 2` (`digits x` = `len(str(x))`)"),
     ("idxWidthEager", "(digits : Int → Int) (n : Int) : Int", "`len(str(len(table))) + 2`"),
     ("colWidth", "(cw ctw dw maxcol : Int) : Int", "`min(max(cw, ctw, dw), max_column_width)`"),
+    ("measureRows", "(tlen limit : Int) : Int", "how many rows of the printed frame `t` are measured for the column widths: `calculate_data_width(t.collect(i))` measures all `t.rowcount` of them"),
+    ("lazyHeadOnlyTake", "(limit : Int) : Int", "head-only, lazy: `islice(table._rows, limit)`"),
+    ("lazyHeadTake", "(limit : Int) : Int", "head and tail, lazy: `head = list(islice(table._rows, limit))`"),
+    ("dequeMax", "(limit : Int) : Int", "head and tail, lazy: `deque(maxlen=limit)`"),
+    ("eagerHeadSize", "(limit : Int) : Int", "head and tail, eager: `table.head(size=limit)`"),
+    ("eagerTailSize", "(limit : Int) : Int", "head and tail, eager: `table.tail(size=limit)`"),
+    ("eagerSliceLen", "(limit : Int) : Int", "head-only, eager: `table.slice(length=limit)`"),
     ("eagerSplitTest", "(n limit : Int) : Prop", "`table.rowcount > 2 * limit` (eager label branch)"),
     ("eagerEllipsisTest", "(i limit : Int) : Prop", "`i == limit`: the ellipsis goes before this row"),
     ("eagerTailTest", "(i limit : Int) : Prop", "`i >= limit`: the row belongs to the tail"),
@@ -161,6 +175,77 @@ def generate(o):
                         raise KeyError("column width does not use " + name)
                 return text
         raise KeyError("col_width = [min(max(...), max_column_width) ...]")
+
+    def measure_rows():
+        """`data_width = [calculate_data_width(t.collect(i)) ...]`: the number of rows of `t` that are measured.
+        `collect(i)` / `collect(i, None)` measures all rows (`tlen`); a row limit is translated (a name is resolved
+        through its single assignment in `_inner`)."""
+        f = inner()
+        for st, e in assignments(f, "data_width"):
+            calls = [c for c in ast.walk(e) if isinstance(c, ast.Call) and isinstance(c.func, ast.Attribute) and c.func.attr == "collect"]
+            if len(calls) != 1 or ast.unparse(calls[0].func.value) != "t":
+                continue
+            if "calculate_data_width" not in ast.unparse(e):
+                continue
+            c = calls[0]
+            lim = None
+            if len(c.args) >= 2:
+                lim = c.args[1]
+            for kw in c.keywords:
+                if kw.arg == "limit":
+                    lim = kw.value
+                elif kw.arg != "columns":
+                    raise KeyError("collect keyword " + str(kw.arg))
+            if lim is None:
+                return "tlen"
+            if isinstance(lim, ast.Name):
+                defs = assignments(f, lim.id)
+                if len(defs) != 1 or not isinstance(defs[0][0], ast.Assign):
+                    raise KeyError("row limit %s is not a single assignment" % lim.id)
+                lim = defs[0][1]
+            return to_lean(lim, {"None": "tlen", "limit": "limit", "t.rowcount": "tlen", "len(t)": "tlen"})
+        raise KeyError("data_width = [calculate_data_width(t.collect(i)) ...]")
+
+    def _arg(call, pos, kw):
+        for k in call.keywords:
+            if k.arg == kw:
+                return k.value
+        if len(call.args) > pos:
+            return call.args[pos]
+        raise KeyError("argument %s of %s" % (kw, ast.unparse(call.func)))
+
+    def cut_sizes():
+        """The sizes in the head / tail selection: islice counts, deque maxlen, head / tail / slice sizes."""
+        f = fn()
+        env = {"limit": "limit"}
+        out = {}
+        stmts = [st for st in ast.walk(f) if isinstance(st, ast.Assign) and len(st.targets) == 1]
+        for st in stmts:
+            tgt = ast.unparse(st.targets[0])
+            calls = [c for c in ast.walk(st.value) if isinstance(c, ast.Call)]
+            for c in calls:
+                name = ast.unparse(c.func)
+                if name == "islice" and ast.unparse(c.args[0]) == "table._rows":
+                    key = "lazyHeadTake" if tgt == "head" else ("lazyHeadOnlyTake" if tgt == "t" else None)
+                    if key is None or key in out or len(c.args) != 2:
+                        raise KeyError("islice site")
+                    out[key] = to_lean(c.args[1], env)
+                elif name == "deque":
+                    if "dequeMax" in out:
+                        raise KeyError("two deques")
+                    out["dequeMax"] = to_lean(_arg(c, 1, "maxlen"), env)
+                elif name == "table.head" and tgt == "t":
+                    out["eagerHeadSize"] = to_lean(_arg(c, 0, "size"), env)
+                elif name == "table.tail" and tgt == "t":
+                    out["eagerTailSize"] = to_lean(_arg(c, 0, "size"), env)
+                elif name == "table.slice" and tgt == "t":
+                    if [k.arg for k in c.keywords] != ["length"] or c.args:
+                        raise KeyError("table.slice arguments")
+                    out["eagerSliceLen"] = to_lean(c.keywords[0].value, env)
+        want = {"lazyHeadOnlyTake", "lazyHeadTake", "dequeMax", "eagerHeadSize", "eagerTailSize", "eagerSliceLen"}
+        if set(out) != want:
+            raise KeyError("selection sizes not found: %s" % sorted(want - set(out)))
+        return out
 
     # ---- labels
     def branches():
@@ -303,6 +388,10 @@ def generate(o):
     item("idxWidthLazy", lambda: idx("lazy"))
     item("idxWidthEager", lambda: idx("eager"))
     item("colWidth", col_width)
+    item("measureRows", measure_rows)
+    cs = o.item("displayexpr.selection_sizes", cut_sizes, {k: PINNED[k] for k in ("lazyHeadOnlyTake", "lazyHeadTake", "dequeMax", "eagerHeadSize",
+                                                                                 "eagerTailSize", "eagerSliceLen")})
+    v.update(cs)
     ep = o.item("displayexpr.eager_branch", eager_parts, {"split": PINNED["eagerSplitTest"], "ell": PINNED["eagerEllipsisTest"],
                                                          "tail": PINNED["eagerTailTest"], "shift": PINNED["eagerShift"]})
     v["eagerSplitTest"], v["eagerEllipsisTest"], v["eagerTailTest"], v["eagerShift"] = ep["split"], ep["ell"], ep["tail"], ep["shift"]
